@@ -1,6 +1,7 @@
 package lifecycle
 
 import (
+	"errors"
 	"fmt"
 	"testing"
 
@@ -47,6 +48,10 @@ func checkProbe(c ProbeCase) pbt.Verdict {
 	}
 	s := &sc.Scenario{Procs: probeProcs(c), FinishRounds: 2}
 	e, err := sc.Begin(s)
+	if errors.Is(err, sc.ErrLeftover) {
+		v.Skip = true
+		return v
+	}
 	if err != nil {
 		return fail("load failed: %v", err)
 	}
